@@ -4,6 +4,7 @@ package main
 
 import (
 	"encoding/json"
+	"fmt"
 
 	"github.com/pion/rtp/codecs"
 	"github.com/pion/rtp/codecs/vp9"
@@ -125,7 +126,26 @@ func vp9DecodeInto(p *codecs.VP9Packet, b []byte) Ev {
 		out, err = p.Unmarshal(b)
 		head = p.IsPartitionHead(b)
 	})
-	return Ev{"res": outcome(r, err), "f": meta(p), "out": ints(out), "head": head}
+	f := meta(p)
+	// the decoded descriptor is the caller's: it appends to every list in it (writes into spare capacity only);
+	// no other field may change
+	appendSafe := true
+	if r == "ok" && err == nil {
+		before := fmt.Sprint(f)
+		guard(func() {
+			_ = append(p.PDiff, 9)
+			_ = append(p.Width, 9)
+			_ = append(p.Height, 9)
+			_ = append(p.PGTID, 9)
+			_ = append(p.PGU, true)
+			for i := range p.PGPDiff {
+				_ = append(p.PGPDiff[i], 9)
+			}
+			_ = append(p.PGPDiff, []uint8{9})
+		})
+		appendSafe = fmt.Sprint(meta(p)) == before
+	}
+	return Ev{"res": outcome(r, err), "f": f, "out": ints(out), "head": head, "append_safe": appendSafe}
 }
 
 func runC12(raw json.RawMessage, w *Writer) {
@@ -140,7 +160,7 @@ func runC12(raw json.RawMessage, w *Writer) {
 		d := vp9Decode(b)
 		u := vp9DecodeInto(vp9Used(len(b)%2 == 1), b) // every other case: zero-allocation mode
 		w.Emit(Ev{"ev": "decode", "bytes": c.Bytes, "dlen": c.Dlen, "want": c.Want, "wantok": c.WantOk, "res": d["res"], "f": d["f"], "out": d["out"], "head": d["head"],
-			"used": Ev{"res": u["res"], "f": u["f"], "out": u["out"]}})
+			"append_safe": d["append_safe"].(bool) && u["append_safe"].(bool), "used": Ev{"res": u["res"], "f": u["f"], "out": u["out"]}})
 	case "header":
 		var h vp9.Header
 		var err error
